@@ -52,7 +52,17 @@ CFG = {
     "variants": [{"features": []}],
     "lean_modules": ["SuccinctlyVerif.Props.C03"],
     "lean_files": ["SuccinctlyVerif/Props/C03.lean", "SuccinctlyVerif/Proof/EliasFano.lean",
-                   "SuccinctlyVerif/Model/EliasFano.lean", "SuccinctlyVerif/Spec/EliasFano.lean"],
+                   "SuccinctlyVerif/Proof/EliasFanoWord.lean", "SuccinctlyVerif/Proof/EliasFanoLow.lean",
+                   "SuccinctlyVerif/Proof/EliasFanoBuild.lean", "SuccinctlyVerif/Proof/EliasFanoSelect.lean",
+                   "SuccinctlyVerif/Proof/EliasFanoPred.lean", "SuccinctlyVerif/Proof/EliasFanoCursor.lean",
+                   "SuccinctlyVerif/Proof/EliasFanoHistory.lean", "SuccinctlyVerif/Proof/Scan.lean",
+                   "SuccinctlyVerif/Model/EliasFano.lean", "SuccinctlyVerif/Model/Scan.lean",
+                   "SuccinctlyVerif/Spec/EliasFano.lean"],
+    "required_theorems": ["SV.Props.C03." + t for t in (
+        "build_total", "len_eq", "universe_eq", "get_eq", "predecessor_eq", "predecessor_none_iff",
+        "predecessor_some", "iter_eq", "inv_init_cursor", "inv_init_cursor_from", "inv_out_step",
+        "observe_eq", "cursor_history", "cursor_history_from", "cursor_history_generated",
+        "highFits_of_length", "advance_by_wraps")],
     "generated": ["C03:"],
     "allow_bv_decide": False,
     "nontrivial": _c03_nontrivial,
